@@ -86,6 +86,27 @@ def read_len(ix, lin, arg):
     raise Anchor("cannot determine the length read by read_exact(%s)" % H.show(arg)[:60])
 
 
+def is_finished_table(ctx):
+    """is_finished() as a truth table over its atomic tests, compared with
+         no frame state  OR  ( frame_finished AND ( NOT checksum-flag OR check_sum.is_some() ) )
+    Returns (ok, observed)."""
+    from .. import booleval
+    isf = ctx.hir(FD + "::is_finished")
+    ix = hq.Index(isf)
+    be = booleval.BoolEval(ix)
+    atoms, table = be.value_table()
+
+    def find(sub):
+        m = [a for a in atoms if sub in a]
+        return m[0] if len(m) == 1 else None
+    a_none, a_fin = find("none(self.state)"), find(".frame_finished")
+    a_flag, a_sum = find("content_checksum_flag("), find("is_some(")
+    if None in (a_none, a_fin, a_flag, a_sum) or len(atoms) != 4 or not a_sum.endswith(".check_sum)"):
+        return False, {"atoms": atoms}
+    bad = booleval.table_equals(atoms, table, lambda s_: s_[a_none] or (s_[a_fin] and ((not s_[a_flag]) or s_[a_sum])))
+    return not bad, {"atoms": atoms, "rows": len(table), "mismatches": [(sorted(k for k, v in m[0].items() if v), m[1], m[2]) for m in bad[:4]]}
+
+
 def run(ctx):
     crate = ctx.crate()
     R = "C10.who.exact-reads"
@@ -300,19 +321,10 @@ def run(ctx):
         # "finished" for a checksummed frame additionally needs the checksum read: sound only if the stored checksum
         # starts absent on every frame and is set nowhere but after reading this frame's 4 checksum bytes
         isf = ctx.hir(FD + "::is_finished")
-        iix = hq.Index(isf)
-        t = hq.peel(hq.tail_expr(isf["body"]) or {})
-        ok = False
-        shape = None
-        if t.get("k") == "If":
-            shape = (iix.canon(t["cond"]), iix.canon(hq.tail_expr(t["then"]) or t["then"]), iix.canon(hq.tail_expr(t["else"]) or t["else"]))
-            import re
-            m = re.search(r"::content_checksum_flag\((.+)\.frame_header\.descriptor\)$", shape[0])
-            st_ = m.group(1) if m else "?"
-            ok = m is not None and shape[2] == st_ + ".frame_finished" and \
-                set(shape[1][1:-1].split(" && ")) == {st_ + ".frame_finished", "core::option::Option::is_some(%s.check_sum)" % st_}
+        ok, shape = is_finished_table(ctx)
         ctx.check(ok, RF, "is_finished::needs-checksum-when-flagged", isf["file"],
-                  "is_finished = frame_finished, and for frames with the checksum flag also check_sum.is_some()", observed=shape)
+                  "is_finished = frame_finished, and for frames with the checksum flag also check_sum.is_some() "
+                  "(truth table over the atomic tests, any spelling)", observed=shape)
         w = dom.field_writers(ctx, FDS + ".check_sum")
         ctx.check(set(w) == allowed, RF, "check_sum::writers", "", "writers of the stored checksum", observed=sorted(w), expected=sorted(allowed))
         nb = ctx.hir(FDS + "::new")
